@@ -288,6 +288,24 @@ def c10(tier, rng, fam='C10'):
                     for i in range(nu):
                         b.step('hop', c=1 + i, h=ret(pay='late'))
                 out.append(b.q().done())
+    # the server owes resets (bodies for streams it does not know) while its writer is held by the transport,
+    # then the connection ends: nothing started for those resets may stay behind
+    for how in ('sread', 'stop'):
+        for n in (1, 4, 9):
+            b = B(fam, 'end by %s while %d resets wait behind a stuck writer' % (how, n), rawcli=True, ser=True)
+            b.step('inj', dir='c2s', env=env(50, m=METH['unary'], b='warm', src='cliX', dst='srv', c=150))
+            b.step('hops', c=150, hp=[ret(pay='up')])
+            b.q()
+            b.step('stuck', dir='s2c', on=True)
+            b.step('inj', dir='c2s', env=env(51, m=METH['unary'], b='held', src='cliX', dst='srv', c=151))   # its reply occupies the writer
+            b.step('hops', c=151, hp=[ret(pay='h')])
+            for i in range(n):
+                b.step('inj', dir='c2s', env=env(60 + i, m=METH['bidi'], b='late%d' % i, src='cliX', dst='srv'))
+            b.q()
+            b.step('fault', what=how)
+            b.q()
+            b.step('stuck', dir='s2c', on=False)
+            out.append(b.q().done())
     # a stream reset by its caller whose handler has not returned yet, then the connection ends:
     # Serve still has to wait for that handler
     for how in ('sread', 'swrite', 'stop'):
@@ -405,6 +423,8 @@ def srv_alphabet():
     A['u_trailer'] = lambda i, c: env(i, m=U, b='q', t=[], src='cliX', dst='srv', c=c)
     A['u_rawbody'] = lambda i, c: env(i, m=U, braw='@9:%d' % (i + 7), src='cliX', dst='srv', c=c)
     A['u_baddst'] = lambda i, c: env(i, m=U, b='q', src='cliX', dst='other', c=c)
+    A['u_nodst'] = lambda i, c: env(i, m=U, b='q', src='cliX', dst='', c=c)              # no destination at all
+    A['s_open_nodst'] = lambda i, c: env(i, m=S, src='cliX', dst='', c=c)
     A['u_badmd'] = lambda i, c: env(i, m=U, b='q', src='cliX', dst='srv', md=[['k-bin', '!!!notbase64']], c=c)
     # undecodable values of every length class mod 4 (unpadded / truncated base64 and plain garbage)
     A['u_badmd_len1'] = lambda i, c: env(i, m=U, b='q', src='cliX', dst='srv', md=[['k-bin', '*']], c=c)
@@ -715,6 +735,7 @@ def c05(tier, rng, fam='C05'):
                     b.step('recv', c=c, n=2, nw=True)
             b.step('wait')
             out.append(b.q().done())
+    out += refused_write_then_calls(fam)
     # (d) a unary call given up at the very moment its reply has been handed to it (both branches of the
     # caller's select are ready: Go picks either): whatever that call reports, the NEXT calls get their own
     # replies - nothing of an abandoned call may survive into a later one
@@ -1199,3 +1220,27 @@ def sweep_c11(tier, rng, fam='C11'):
 
 def sweep_c07(tier, rng, fam='C07'):
     return gate_sweep(tier, rng, fam, sample=100 if tier == 'quick' else None, only=('cancel', 'deadline', 'failsend'))
+
+
+def refused_write_then_calls(fam):
+    """a unary call whose request write is held by the transport and then fails (its caller gives up) while a
+    LATER call already holds the next id: the calls started afterwards get fresh ids and their own replies"""
+    out = []
+    for n_later in (1, 2):
+        for ser in (True, False):
+            b = B(fam, 'unary write held then refused, %d later call(s) in flight, then new calls (%s)' % (n_later, 'serialising' if ser else 'by reference'), ser=ser)
+            b.step('ucall', c=9, pay='warm', hp=[ret(pay='up')])
+            b.step('stuck', dir='c2s', on=True)
+            b.step('ucall', c=1, pay='q1', hp=[ret(pay='p1')])
+            for k in range(n_later):
+                b.step('ucall', c=2 + k, pay='q%d' % (2 + k), hp=[])          # handler parked: stays in flight
+            b.step('cancel', c=1)
+            b.step('stuck', dir='c2s', on=False)
+            b.q()
+            for k in range(3):
+                b.step('ucall', c=10 + k, pay='n%d' % k, hp=[ret(pay='r%d' % k)])
+            b.q()
+            for k in range(n_later):
+                b.step('hop', c=2 + k, h=ret(pay='p%d' % (2 + k)))
+            out.append(b.q().done())
+    return out
